@@ -31,10 +31,11 @@ ENTRY = dict(
         "position without description never creates/overwrites/re-indexes": "theorem (`unknown_inert_ecomax(_all)`, `_mixer`, `_thermostat`, `_schedule`)",
         "existing thermostat parameters are never re-addressed by later responses": "theorem (`addressing_stable_thermostat`)",
         "thermostat offset = t x parameters per thermostat": "partial: theorem without holes; F3 witness with a hole",
+        "responses before the UID response (product type unknown)": "theorem (`waiting_kinds_inert_before_uid`, `delayed_application_uses_real_product`, `_mixer`) + correspondence (arrival-order histories, predicate S4)",
         "model = implementation": "correspondence",
     },
     assumptions=COMMON_ASSUME + [
-        "one product type per device history (a UID response arrives before the parameter responses and does not change type later)",
+        "one product type per device history (the UID response may arrive at any point, also after parameter responses; it does not change type later)",
         "'number of parameters per thermostat' = slots per thermostat in the decoded block, (start+count)//T - start",
     ],
     timeout={"quick": 600, "thorough": 1800},
